@@ -19,7 +19,11 @@
 (*                  and, for n <= 4, Hp = round(H * Sp) with small entries *)
 (*                  for the Sylvester certificate.                         *)
 (*  api = "blocks"  inversion.regularization_matrix / _reduced against     *)
-(*                  every object's own regularization_matrix.              *)
+(*                  every object's own regularization_matrix, read after   *)
+(*                  the inversion-level history r.stage (fresh, after the  *)
+(*                  solve, preloaded, second inversion on the same         *)
+(*                  Preloads, the source inversion of the preload): the    *)
+(*                  clauses are the same for every stage.                  *)
 (*                                                                         *)
 (* history: "fresh" = regularization_matrix_from on a new object; "copy" /  *)
 (* "reassign" = read from linear_obj.regularization_matrix after the object *)
@@ -194,6 +198,9 @@ BlocksClauses(r) ==
                      r.Rq = ReducedDef(oq, ps, regs) /\ r.Rr = ReducedDef(orr, ps, regs))
                \o Cl("cholesky-factorization-of-reduced-matrix-exists", r.chol)
                \o Cl("log-determinant-term-exists", r.logdet_ok)
+               \* ld, ld_ref: round(1000 x) of the reported term and of 2 SUM log diag(cholesky(reduced matrix as read))
+               \o Cl("log-determinant-term-is-that-of-the-reduced-matrix",
+                     (r.logdet_ok /\ r.chol) => Abs(r.ld - r.ld_ref) <= 10)
 
 Clauses(r) ==
   CASE r.api = "exact" -> ExactClauses(r)
@@ -220,6 +227,8 @@ Sig(r) == r.api \o ":" \o r.scheme \o ":" \o r.mesh
           \* history of the linear object the matrix was read from: "fresh", or the object carried ANOTHER scheme whose block was
           \* evaluated before the judged scheme was assigned to a copy.copy of it ("copy") or to the object itself ("reassign")
           \o (IF r.history # "fresh" THEN ":after-" \o r.history ELSE "")
+          \* inversion-level history before the judged read (Regularization!HistRead): after-solve, preloaded, ...
+          \o (IF r.api = "blocks" /\ r.stage # "fresh" THEN ":" \o r.stage ELSE "")
 
 TraceInit == i = 1 /\ inst = Blank /\ phase = "trace" /\ out = << >>
 TraceNext ==
